@@ -10,12 +10,6 @@ set_option synthInstance.maxSize 4096 in
 set_option synthInstance.maxHeartbeats 1000000 in
 theorem gen_consistent : TableConsistent Gen.table Gen.ladder := by decide +kernel
 
-/-- (helper, not a property theorem) one unfolding of the model lexer: a blank, newline or tab
-where a token may start is dropped -/
-theorem lexAux_whitespace (terms : List String) (f : Nat) (c : Char) (cs : List Char) (acc : List Tok)
-    (hc : c = ' ' ∨ c = '\n' ∨ c = '\t') : lexAux terms (f + 1) (c :: cs) acc = lexAux terms f cs acc := by
-  rcases hc with rfl | rfl | rfl <;> simp [lexAux]
-
 variable {T : Table} {L : Ladder}
 
 /-! ### ladder indexing -/
